@@ -168,6 +168,12 @@ class FilesWorld:
                 inputs.append((d, name, enc, it))
                 continue
             d, name, enc, it = ro.choice(inputs)
+            if ro.random() < 0.06 and not name.startswith("lnk"):
+                # the same input reached through a symbolic link with another base name
+                lname = "lnk_" + name.split(".")[0] + "." + ro.choice(EXTS)
+                ops.append({"op": "link", "dir": d, "name": lname, "to": name})
+                inputs.append((d, lname, enc, it))
+                continue
             faults = []
             if swarm["faults"] and rf.random() < swarm["p_io"]:
                 f = rf.choice(IO_FAULTS)
@@ -201,7 +207,7 @@ class FilesWorld:
                 elif rr < 0.9:
                     if swarm["faults"] and rf.random() < 0.5:
                         common["faults"] = faults + [{"site": "listdir", "perm_seed": rf.randrange(10 ** 6)}]
-                    op = dict(common, op="cli_dir", dir=ro.choice(["in2", "in2", "in"]))
+                    op = dict(common, op="cli_dir", dir=ro.choice(["in2", "in2", "in"]), slash=ro.random() < 0.3)
                 else:
                     op = dict(common, op="cli_missing", path=ro.choice(["nope.sql", "in/absent.ddl", "no/such/dir"]))
                 ops.append(op)
@@ -324,6 +330,7 @@ class FilesWorld:
         violations = []
         kinds = []
         files = {}      # (dir, name) -> (text, enc)
+        links = {}      # (dir, link name) -> (dir, target name)
         faulted_targets = set()
         try:
             for i, op in enumerate(trace["ops"]):
@@ -337,9 +344,23 @@ class FilesWorld:
                     except (UnicodeError, OSError):
                         continue
                     files[(op["dir"], op["name"])] = (op["text"], op["enc"])
+                    for lk, tgt in links.items():
+                        if tgt == (op["dir"], op["name"]):
+                            files[lk] = files[tgt]
                     if op.get("nl"):
                         stats["inputs_crlf_or_cr"] += 1
                     kinds.append("put:%s:%s%s" % (_name_class(op["name"]), op["enc"], ":crlf" if op.get("nl") else ""))
+                    continue
+                if k == "link":
+                    if (op["dir"], op["to"]) in files and (op["dir"], op["name"]) not in files:
+                        try:
+                            os.symlink(op["to"], os.path.join(root, op["dir"], op["name"]))
+                            files[(op["dir"], op["name"])] = files[(op["dir"], op["to"])]
+                            links[(op["dir"], op["name"])] = (op["dir"], op["to"])
+                            stats["symlink_inputs"] += 1
+                            kinds.append("link")
+                        except OSError:
+                            pass
                     continue
                 if k == "env":
                     self._apply_env(root, op, stats)
@@ -497,7 +518,7 @@ class FilesWorld:
                     return None, "skip"
                 argv.append(os.path.join(root, op["dir"], op["name"]))
             elif k == "cli_dir":
-                argv.append(os.path.join(root, op["dir"]))
+                argv.append(os.path.join(root, op["dir"]) + ("/" if op.get("slash") else ""))
             else:
                 argv.append(os.path.join(root, op["path"]))
             if op.get("target") is not None:
